@@ -69,7 +69,28 @@ func (e *Engine) failStack(st *State) []string {
 // assertObligation decides one assertion: unsat of pc ∧ ¬c discharges it; a model is a counterexample. When the
 // harness registered known-finding signatures that are listed as open, the counterexample is classified, and a
 // second query looks for a counterexample outside every listed signature (a different violation is still reported).
+// enough stops a job once it holds MaxFailures counterexamples outside every known-finding signature: the verdict
+// of the job is already "violated", and every further counterexample costs a model extraction (seconds each once the
+// solver holds thousands of definitions). The remaining paths are not explored; the result says so.
+type jobEnough struct{ n int }
+
+func (e *Engine) enough() {
+	if e.MaxFailures <= 0 {
+		return
+	}
+	n := 0
+	for _, f := range e.Failures {
+		if (f.Kind == "assert" || f.Kind == "panic") && f.Known == "" {
+			n++
+		}
+	}
+	if n >= e.MaxFailures {
+		panic(jobEnough{n})
+	}
+}
+
 func (e *Engine) assertObligation(st *State, c *Term, msg string) {
+	defer e.enough()
 	e.AssertQ++
 	if c.IsTrue() {
 		// folded to true by the term constructors: trivial only if no solver-decided branch led here
@@ -228,6 +249,40 @@ func (e *Engine) harnessCall(st *State, fn *ssa.Function, args []Value) (Value, 
 		return StringVal{Atom: ConstInt(int64(500000 + e.opaqueSeq)), Others: 1}, true
 	case "verifRegexMatch":
 		return e.uf("M", []*Term{e.strID(args[0].(StringVal)), e.strID(args[1].(StringVal))}, BoolSort), true
+	case "verifConcretize":
+		// verifConcretize(x, lo, hi): case split of the harness over the value of x. The state is forked over every
+		// feasible value in [lo,hi]; each fork gets x == c in its path condition, the constant as result and a split
+		// key that keeps it from being merged with its siblings again (join points, callee summaries). Values outside
+		// [lo,hi] are an assertion failure ("concretize range"), so the split never hides a case.
+		x := asTerm(args[0])
+		lo, ok1 := e.concreteInt(st, args[1], "lo")
+		hi, ok2 := e.concreteInt(st, args[2], "hi")
+		if !ok1 || !ok2 {
+			unsupported("verifConcretize with symbolic range")
+		}
+		if x.IsConst() {
+			return x, true
+		}
+		x = Resize(x, 64, true)
+		out := Or(BVCmp("bvslt", x, ConstBV(uint64(lo), 64)), BVCmp("bvsgt", x, ConstBV(uint64(hi), 64)))
+		if out.IsFalse() {
+			// a guarded constant whose cases all lie inside the range: nothing to ask
+		} else if e.S.Check(st.pc, out) != Unsat {
+			m, uf := e.modelNow()
+			e.S.EndModel()
+			e.Failures = append(e.Failures, Failure{Kind: "assert", Msg: fmt.Sprintf("verifConcretize: value outside the declared range [%d,%d]", lo, hi), Where: st.top().fn.String(), Model: m, UF: uf, Stack: e.failStack(st)})
+			st.pc = append(st.pc, Not(out))
+		} else {
+			e.S.EndModel()
+		}
+		var conds []*Term
+		var vals []Value
+		for c := lo; c <= hi; c++ {
+			conds = append(conds, Eq(x, ConstBV(uint64(c), 64)))
+			vals = append(vals, ConstBV(uint64(c), 64))
+		}
+		e.splitSeq++
+		return splitFork{ForkVal: ForkVal{Conds: conds, Vals: vals}, Key: fmt.Sprintf("%d", e.splitSeq)}, true
 	case "verifAnd":
 		return And(asTerm(args[0]), asTerm(args[1])), true
 	case "verifOr":
